@@ -126,3 +126,17 @@ OPS['tablevars'] = async (js, pfx, query, names, norm, width) => {
     }
     return enc_varmap(d);
 };
+
+// the REAL parse_number of rbql.js, reached through a one-record MAX query (the function itself is not exported)
+OPS['jsnum'] = async (s) => {
+    const out = [];
+    try {
+        await rbql.query_table('select MAX(a1)', [[dec_str(s)]], out, []);
+    } catch (e) {
+        if (String(e && e.message).indexOf('Unable to convert value') != -1) return 'BAD';
+        throw e;
+    }
+    const v = out[0][0];
+    if (typeof v !== 'number') return 'OTHER';
+    return Number.isFinite(v) ? 'R' + String(v) : 'NF';
+};
